@@ -301,6 +301,20 @@ func emitNonrevAttacks(g *Rng, kp *KeyPair, ir *issuerRev, cred *gabi.Credential
 			emit(nrOp(kp, t2, ctx, nonce, "nr-same-accumulator-newer-time", ""))
 		} else {
 			emit(nrOp(kp, t2, ctx, nonce, "nr-other-accumulator", "reject"))
+			// the same, with the accumulator the proof WAS made against smuggled in as additional
+			// members of the wire object (named like the decoded-accumulator field of the Go struct,
+			// or like its tag): only the signed bytes may determine what the verifier uses
+			if wacc := cred.NonRevocationWitness.SignedAccumulator.Accumulator; wacc != nil {
+				raw, err := json.Marshal(wacc)
+				if err != nil {
+					panic(err)
+				}
+				for _, name := range []string{"-", "Accumulator", "accumulator", "acc"} {
+					t3 := cloneTree(t2).(T)
+					t3["nonrev_proof"].(T)["sacc"].(T)[name] = T{"$raw": string(raw)}
+					emit(nrOp(kp, t3, ctx, nonce, "nr-other-accumulator-extra-member", "reject"))
+				}
+			}
 		}
 	}
 	// signature bytes / counter
